@@ -442,7 +442,14 @@ func (g *fileGen) field(m *ir.Message, names *nameSet, embedded map[string]bool,
 			}
 		}
 	}
+	// int64 with (gogoproto.stdduration) = true, as test.proto's DurationStandard: a time.Duration held by value
+	if fl.Kind == "int64" && fl.CastType == "" && fl.Card == ir.Single && !inOneof && !o.NoTemporal && rapid.IntRange(0, 7).Draw(t, "stddur?") == 0 {
+		fl.StdDurationOnInt = true
+	}
 	// custom type via proto option (singular or repeated scalar; not oneof, not map)
+	if fl.StdDurationOnInt {
+		return g.finishField(fl, names)
+	}
 	if !o.NoCustom && fl.IsScalar() && fl.CastType == "" && fl.Card != ir.Map && !inOneof {
 		p := 14
 		if o.CustomFields {
@@ -459,6 +466,12 @@ func (g *fileGen) field(m *ir.Message, names *nameSet, embedded map[string]bool,
 			}
 		}
 	}
+	return g.finishField(fl, names)
+}
+
+// finishField draws the json tag and the comments of a field.
+func (g *fileGen) finishField(fl *ir.Field, names *nameSet) *ir.Field {
+	t, o := g.t, g.o
 	// json tag
 	if !fl.Embed {
 		switch rapid.IntRange(0, 9).Draw(t, "jsontag") {
